@@ -8,6 +8,17 @@ use std::fmt;
 
 pub type Gamma = HashSet<(Type, Type)>;
 
+/// Pairs memoised during the current top-level check, in insertion order.
+type Trail = Vec<(Type, Type)>;
+
+/// A pair that was assumed co-inductively turned out not to hold: forget it together with
+/// everything memoised after it, since those entries may have been accepted because of it.
+fn forget_since(gamma: &mut Gamma, trail: &mut Trail, mark: usize) {
+    for pair in trail.drain(mark..) {
+        gamma.remove(&pair);
+    }
+}
+
 /// Error reporting style for the special opt rule
 #[derive(Debug, Copy, Clone)]
 pub enum OptReport {
@@ -20,6 +31,7 @@ pub fn subtype(gamma: &mut Gamma, env: &TypeEnv, t1: &Type, t2: &Type) -> Result
     subtype_(
         OptReport::Warning,
         gamma,
+        &mut Vec::new(),
         env,
         t1,
         t2,
@@ -34,7 +46,15 @@ pub fn subtype_with_config(
     t1: &Type,
     t2: &Type,
 ) -> Result<()> {
-    subtype_(report, gamma, env, t1, t2, &RecursionDepth::new())
+    subtype_(
+        report,
+        gamma,
+        &mut Vec::new(),
+        env,
+        t1,
+        t2,
+        &RecursionDepth::new(),
+    )
 }
 
 /// A single incompatibility found during subtype checking.
@@ -170,6 +190,7 @@ pub fn subtype_check_all(
     subtype_collect_(
         OptReport::Warning,
         gamma,
+        &mut Vec::new(),
         env,
         t1,
         t2,
@@ -188,6 +209,7 @@ pub fn subtype_check_all(
 fn subtype_collect_(
     report: OptReport,
     gamma: &mut Gamma,
+    trail: &mut Trail,
     env: &TypeEnv,
     t1: &Type,
     t2: &Type,
@@ -215,11 +237,14 @@ fn subtype_collect_(
         if !gamma.insert((t1.clone(), t2.clone())) {
             return; // co-inductive: assume OK
         }
+        let mark = trail.len();
+        trail.push((t1.clone(), t2.clone()));
         let before = errors.len();
         match (t1.as_ref(), t2.as_ref()) {
             (Var(id), _) => subtype_collect_(
                 report,
                 gamma,
+                trail,
                 env,
                 env.rec_find_type_with_depth(id, depth).unwrap(),
                 t2,
@@ -231,6 +256,7 @@ fn subtype_collect_(
             (_, Var(id)) => subtype_collect_(
                 report,
                 gamma,
+                trail,
                 env,
                 t1,
                 env.rec_find_type_with_depth(id, depth).unwrap(),
@@ -242,6 +268,7 @@ fn subtype_collect_(
             (Knot(id), _) => subtype_collect_(
                 report,
                 gamma,
+                trail,
                 env,
                 &find_type(id).unwrap(),
                 t2,
@@ -253,6 +280,7 @@ fn subtype_collect_(
             (_, Knot(id)) => subtype_collect_(
                 report,
                 gamma,
+                trail,
                 env,
                 t1,
                 &find_type(id).unwrap(),
@@ -264,7 +292,7 @@ fn subtype_collect_(
             (_, _) => unreachable!(),
         };
         if errors.len() > before {
-            gamma.remove(&(t1.clone(), t2.clone()));
+            forget_since(gamma, trail, mark);
         }
         return;
     }
@@ -277,14 +305,16 @@ fn subtype_collect_(
         // unconditionally — like `Nat <: Int`.
         (Service(_), Principal) => (),
         (Vec(ty1), Vec(ty2)) => {
-            subtype_collect_(report, gamma, env, ty1, ty2, depth, path, errors, is_input);
+            subtype_collect_(
+                report, gamma, trail, env, ty1, ty2, depth, path, errors, is_input,
+            );
         }
         (Null, Opt(_)) => (),
         // For opt rules we delegate to the existing subtype_ to test the condition,
         // since these are probes, not things that generate multiple independent errors.
-        (Opt(ty1), Opt(ty2)) if subtype_(report, gamma, env, ty1, ty2, depth).is_ok() => {}
+        (Opt(ty1), Opt(ty2)) if subtype_(report, gamma, trail, env, ty1, ty2, depth).is_ok() => {}
         (_, Opt(ty2))
-            if subtype_(report, gamma, env, t1, ty2, depth).is_ok()
+            if subtype_(report, gamma, trail, env, t1, ty2, depth).is_ok()
                 && !matches!(
                     env.trace_type_with_depth(ty2, depth)
                         .map(|t| t.as_ref().clone()),
@@ -310,7 +340,7 @@ fn subtype_collect_(
                     Some(ty1) => {
                         path.push(format!("record field {id}"));
                         subtype_collect_(
-                            report, gamma, env, ty1, ty2, depth, path, errors, is_input,
+                            report, gamma, trail, env, ty1, ty2, depth, path, errors, is_input,
                         );
                         path.pop();
                     }
@@ -346,7 +376,7 @@ fn subtype_collect_(
                     Some(ty2) => {
                         path.push(format!("variant field {id}"));
                         subtype_collect_(
-                            report, gamma, env, ty1, ty2, depth, path, errors, is_input,
+                            report, gamma, trail, env, ty1, ty2, depth, path, errors, is_input,
                         );
                         path.pop();
                     }
@@ -374,7 +404,9 @@ fn subtype_collect_(
                 match meths.get(name) {
                     Some(ty1) => {
                         path.push(format!("method \"{name}\""));
-                        subtype_collect_(report, gamma, env, ty1, ty2, depth, path, errors, false);
+                        subtype_collect_(
+                            report, gamma, trail, env, ty1, ty2, depth, path, errors, false,
+                        );
                         path.pop();
                     }
                     None => {
@@ -411,17 +443,21 @@ fn subtype_collect_(
             // Check each argument directly instead of wrapping in a tuple record,
             // so we get clean error paths like "input argument 1" instead of "record field 0".
             check_func_params(
-                report, gamma, env, &f2.args, &f1.args, depth, path, errors, "input", true,
+                report, gamma, trail, env, &f2.args, &f1.args, depth, path, errors, "input", true,
             );
             check_func_params(
-                report, gamma, env, &f1.rets, &f2.rets, depth, path, errors, "return", false,
+                report, gamma, trail, env, &f1.rets, &f2.rets, depth, path, errors, "return", false,
             );
         }
         (Class(_, t), _) => {
-            subtype_collect_(report, gamma, env, t, t2, depth, path, errors, is_input);
+            subtype_collect_(
+                report, gamma, trail, env, t, t2, depth, path, errors, is_input,
+            );
         }
         (_, Class(_, t)) => {
-            subtype_collect_(report, gamma, env, t1, t, depth, path, errors, is_input);
+            subtype_collect_(
+                report, gamma, trail, env, t1, t, depth, path, errors, is_input,
+            );
         }
         (Unknown, _) => unreachable!(),
         (_, Unknown) => unreachable!(),
@@ -444,6 +480,7 @@ fn subtype_collect_(
 fn check_func_params(
     report: OptReport,
     gamma: &mut Gamma,
+    trail: &mut Trail,
     env: &TypeEnv,
     sub_params: &[Type],
     sup_params: &[Type],
@@ -460,6 +497,7 @@ fn check_func_params(
         subtype_collect_(
             report,
             gamma,
+            trail,
             env,
             &sub_params[0],
             &sup_params[0],
@@ -491,7 +529,7 @@ fn check_func_params(
             )
         });
         subtype_collect_(
-            report, gamma, env, &sub_tuple, &sup_tuple, depth, path, errors, is_input,
+            report, gamma, trail, env, &sub_tuple, &sup_tuple, depth, path, errors, is_input,
         );
         path.pop();
     }
@@ -515,6 +553,7 @@ fn pp_modes(modes: &[super::internal::FuncMode]) -> String {
 fn subtype_(
     report: OptReport,
     gamma: &mut Gamma,
+    trail: &mut Trail,
     env: &TypeEnv,
     t1: &Type,
     t2: &Type,
@@ -529,10 +568,13 @@ fn subtype_(
         if !gamma.insert((t1.clone(), t2.clone())) {
             return Ok(());
         }
+        let mark = trail.len();
+        trail.push((t1.clone(), t2.clone()));
         let res = match (t1.as_ref(), t2.as_ref()) {
             (Var(id), _) => subtype_(
                 report,
                 gamma,
+                trail,
                 env,
                 env.rec_find_type_with_depth(id, depth).unwrap(),
                 t2,
@@ -541,17 +583,34 @@ fn subtype_(
             (_, Var(id)) => subtype_(
                 report,
                 gamma,
+                trail,
                 env,
                 t1,
                 env.rec_find_type_with_depth(id, depth).unwrap(),
                 depth,
             ),
-            (Knot(id), _) => subtype_(report, gamma, env, &find_type(id).unwrap(), t2, depth),
-            (_, Knot(id)) => subtype_(report, gamma, env, t1, &find_type(id).unwrap(), depth),
+            (Knot(id), _) => subtype_(
+                report,
+                gamma,
+                trail,
+                env,
+                &find_type(id).unwrap(),
+                t2,
+                depth,
+            ),
+            (_, Knot(id)) => subtype_(
+                report,
+                gamma,
+                trail,
+                env,
+                t1,
+                &find_type(id).unwrap(),
+                depth,
+            ),
             (_, _) => unreachable!(),
         };
         if res.is_err() {
-            gamma.remove(&(t1.clone(), t2.clone()));
+            forget_since(gamma, trail, mark);
         }
         return res;
     }
@@ -560,11 +619,13 @@ fn subtype_(
         (Empty, _) => Ok(()),
         (Nat, Int) => Ok(()),
         (Service(_), Principal) => Ok(()),
-        (Vec(ty1), Vec(ty2)) => subtype_(report, gamma, env, ty1, ty2, depth),
+        (Vec(ty1), Vec(ty2)) => subtype_(report, gamma, trail, env, ty1, ty2, depth),
         (Null, Opt(_)) => Ok(()),
-        (Opt(ty1), Opt(ty2)) if subtype_(report, gamma, env, ty1, ty2, depth).is_ok() => Ok(()),
+        (Opt(ty1), Opt(ty2)) if subtype_(report, gamma, trail, env, ty1, ty2, depth).is_ok() => {
+            Ok(())
+        }
         (_, Opt(ty2))
-            if subtype_(report, gamma, env, t1, ty2, depth).is_ok()
+            if subtype_(report, gamma, trail, env, t1, ty2, depth).is_ok()
                 && !matches!(
                     env.trace_type_with_depth(ty2, depth)?.as_ref(),
                     Null | Reserved | Opt(_)
@@ -585,11 +646,10 @@ fn subtype_(
             let fields: HashMap<_, _> = fs1.iter().map(|Field { id, ty }| (id, ty)).collect();
             for Field { id, ty: ty2 } in fs2 {
                 match fields.get(id) {
-                    Some(ty1) => {
-                        subtype_(report, gamma, env, ty1, ty2, depth).with_context(|| {
+                    Some(ty1) => subtype_(report, gamma, trail, env, ty1, ty2, depth)
+                        .with_context(|| {
                             format!("Record field {id}: {ty1} is not a subtype of {ty2}")
-                        })?
-                    }
+                        })?,
                     None => {
                         if !matches!(
                             env.trace_type_with_depth(ty2, depth)?.as_ref(),
@@ -606,11 +666,10 @@ fn subtype_(
             let fields: HashMap<_, _> = fs2.iter().map(|Field { id, ty }| (id, ty)).collect();
             for Field { id, ty: ty1 } in fs1 {
                 match fields.get(id) {
-                    Some(ty2) => {
-                        subtype_(report, gamma, env, ty1, ty2, depth).with_context(|| {
+                    Some(ty2) => subtype_(report, gamma, trail, env, ty1, ty2, depth)
+                        .with_context(|| {
                             format!("Variant field {id}: {ty1} is not a subtype of {ty2}")
-                        })?
-                    }
+                        })?,
                     None => {
                         return Err(Error::msg(format!(
                             "Variant field {id} not found in the expected type"
@@ -624,11 +683,10 @@ fn subtype_(
             let meths: HashMap<_, _> = ms1.iter().cloned().collect();
             for (name, ty2) in ms2 {
                 match meths.get(name) {
-                    Some(ty1) => {
-                        subtype_(report, gamma, env, ty1, ty2, depth).with_context(|| {
+                    Some(ty1) => subtype_(report, gamma, trail, env, ty1, ty2, depth)
+                        .with_context(|| {
                             format!("Method {name}: {ty1} is not a subtype of {ty2}")
-                        })?
-                    }
+                        })?,
                     None => {
                         return Err(Error::msg(format!(
                             "Method {name} is only in the expected type"
@@ -646,15 +704,15 @@ fn subtype_(
             let args2 = to_tuple(&f2.args);
             let rets1 = to_tuple(&f1.rets);
             let rets2 = to_tuple(&f2.rets);
-            subtype_(report, gamma, env, &args2, &args1, depth)
+            subtype_(report, gamma, trail, env, &args2, &args1, depth)
                 .context("Subtype fails at function input type")?;
-            subtype_(report, gamma, env, &rets1, &rets2, depth)
+            subtype_(report, gamma, trail, env, &rets1, &rets2, depth)
                 .context("Subtype fails at function return type")?;
             Ok(())
         }
         // This only works in the first order case, but service constructor only appears at the top level according to the spec.
-        (Class(_, t), _) => subtype_(report, gamma, env, t, t2, depth),
-        (_, Class(_, t)) => subtype_(report, gamma, env, t1, t, depth),
+        (Class(_, t), _) => subtype_(report, gamma, trail, env, t, t2, depth),
+        (_, Class(_, t)) => subtype_(report, gamma, trail, env, t1, t, depth),
         (Unknown, _) => unreachable!(),
         (_, Unknown) => unreachable!(),
         (_, _) => Err(Error::msg(format!("{t1} is not a subtype of {t2}"))),
@@ -664,11 +722,12 @@ fn subtype_(
 /// Check if t1 and t2 are structurally equivalent, ignoring the variable naming differences.
 /// Note that this is more strict than `t1 <: t2` and `t2 <: t1`, because of the special opt rule.
 pub fn equal(gamma: &mut Gamma, env: &TypeEnv, t1: &Type, t2: &Type) -> Result<()> {
-    equal_impl(gamma, env, t1, t2, &RecursionDepth::new())
+    equal_impl(gamma, &mut Vec::new(), env, t1, t2, &RecursionDepth::new())
 }
 
 fn equal_impl(
     gamma: &mut Gamma,
+    trail: &mut Trail,
     env: &TypeEnv,
     t1: &Type,
     t2: &Type,
@@ -683,9 +742,12 @@ fn equal_impl(
         if !gamma.insert((t1.clone(), t2.clone())) {
             return Ok(());
         }
+        let mark = trail.len();
+        trail.push((t1.clone(), t2.clone()));
         let res = match (t1.as_ref(), t2.as_ref()) {
             (Var(id), _) => equal_impl(
                 gamma,
+                trail,
                 env,
                 env.rec_find_type_with_depth(id, depth).unwrap(),
                 t2,
@@ -693,23 +755,24 @@ fn equal_impl(
             ),
             (_, Var(id)) => equal_impl(
                 gamma,
+                trail,
                 env,
                 t1,
                 env.rec_find_type_with_depth(id, depth).unwrap(),
                 depth,
             ),
-            (Knot(id), _) => equal_impl(gamma, env, &find_type(id).unwrap(), t2, depth),
-            (_, Knot(id)) => equal_impl(gamma, env, t1, &find_type(id).unwrap(), depth),
+            (Knot(id), _) => equal_impl(gamma, trail, env, &find_type(id).unwrap(), t2, depth),
+            (_, Knot(id)) => equal_impl(gamma, trail, env, t1, &find_type(id).unwrap(), depth),
             (_, _) => unreachable!(),
         };
         if res.is_err() {
-            gamma.remove(&(t1.clone(), t2.clone()));
+            forget_since(gamma, trail, mark);
         }
         return res;
     }
     match (t1.as_ref(), t2.as_ref()) {
-        (Opt(ty1), Opt(ty2)) => equal_impl(gamma, env, ty1, ty2, depth),
-        (Vec(ty1), Vec(ty2)) => equal_impl(gamma, env, ty1, ty2, depth),
+        (Opt(ty1), Opt(ty2)) => equal_impl(gamma, trail, env, ty1, ty2, depth),
+        (Vec(ty1), Vec(ty2)) => equal_impl(gamma, trail, env, ty1, ty2, depth),
         (Record(fs1), Record(fs2)) | (Variant(fs1), Variant(fs2)) => {
             assert_length(fs1, fs2, |x| x.id.clone(), |x| x.to_string())
                 .context("Different field length")?;
@@ -720,7 +783,7 @@ fn equal_impl(
                         f1.id, f2.id
                     )));
                 }
-                equal_impl(gamma, env, &f1.ty, &f2.ty, depth).context(format!(
+                equal_impl(gamma, trail, env, &f1.ty, &f2.ty, depth).context(format!(
                     "Field {} has different types: {} and {}",
                     f1.id, f1.ty, f2.ty
                 ))?;
@@ -737,7 +800,7 @@ fn equal_impl(
                         m1.0, m2.0
                     )));
                 }
-                equal_impl(gamma, env, &m1.1, &m2.1, depth).context(format!(
+                equal_impl(gamma, trail, env, &m1.1, &m2.1, depth).context(format!(
                     "Method {} has different types: {} and {}",
                     m1.0, m1.1, m2.1
                 ))?;
@@ -752,21 +815,21 @@ fn equal_impl(
             let args2 = to_tuple(&f2.args);
             let rets1 = to_tuple(&f1.rets);
             let rets2 = to_tuple(&f2.rets);
-            equal_impl(gamma, env, &args1, &args2, depth)
+            equal_impl(gamma, trail, env, &args1, &args2, depth)
                 .context("Mismatch in function input type")?;
-            equal_impl(gamma, env, &rets1, &rets2, depth)
+            equal_impl(gamma, trail, env, &rets1, &rets2, depth)
                 .context("Mismatch in function return type")?;
             Ok(())
         }
         (Class(init1, ty1), Class(init2, ty2)) => {
             let init_1 = to_tuple(init1);
             let init_2 = to_tuple(init2);
-            equal_impl(gamma, env, &init_1, &init_2, depth).context(format!(
+            equal_impl(gamma, trail, env, &init_1, &init_2, depth).context(format!(
                 "Mismatch in init args: {} and {}",
                 pp_args(init1),
                 pp_args(init2)
             ))?;
-            equal_impl(gamma, env, ty1, ty2, depth)
+            equal_impl(gamma, trail, env, ty1, ty2, depth)
         }
         (Unknown, _) => unreachable!(),
         (_, Unknown) => unreachable!(),
